@@ -8,7 +8,8 @@
              | (12 (e..) d) MultistageDistributor | (13 m b) TieBreaking | (14 p) PartyListEvaluator closed
              | (15 p le c?) open | (16 e) VotingSystem | (17 (e..) (q..) d) UnusedVotesDistributor
              | (18 c e) AdjustedSeatCount(calculator c) | (19 pe e) AdjustedSeatCount(AllowOverhang(pe))
-             | (20 pe e fuel) AdjustedSeatCount(LevelOverhang(pe)) | (21 e a pre) ByConstituency with a preselector ;
+             | (20 pe e fuel) AdjustedSeatCount(LevelOverhang(pe)) | (21 e a pre) ByConstituency with a preselector
+             | (22 ce oe e fuel) / (23 ce e fuel) AdjustedSeatCount(LevelOverhangByConstituency(ce, oe | None)) ;
              a = (0) | (1 n) | (2 dict-value)
    kwrec   : six options  () | (v)   in the order n_seats prev_gains max_seats party_lists list_votes candidate_list
    oracle  : leaf table ((l votes (opt..) result)..), converter table ((c value result)..);
@@ -154,6 +155,10 @@ Fixpoint dec_ev (s : sx) : option ev :=
                           | Some p', Some e', Some f' => Some (AdjLevel p' e' f') | _, _, _ => None end
   | L [A 21; e; a; pre] => match dec_ev e, dec_aspec a, dec_ev pre with
                            | Some e', Some a', Some p' => Some (ByConsP e' a' p') | _, _, _ => None end
+  | L [A 22; ce; oe; e; f] => match dec_ev ce, dec_ev oe, dec_ev e, as_nat f with
+                              | Some c', Some o', Some e', Some f' => Some (AdjLevelC c' o' e' f') | _, _, _, _ => None end
+  | L [A 23; ce; e; f] => match dec_ev ce, dec_ev e, as_nat f with
+                          | Some c', Some e', Some f' => Some (AdjLevelC0 c' e' f') | _, _, _ => None end
   | _ => None
   end.
 
@@ -234,7 +239,8 @@ Fixpoint node_info (t : ev) : list sx :=
         | PreConv _ e | PostConv e _ | Fixed e _ | RemApp e | PreApp e _ | ByCons e _ | ByPartyS e | PListC e
         | VSys e | AdjLeaf _ e => node_info e
         | Cond a b _ | ByConsD a b | PreAppD a b | ByParty a b | TieBr a b | PListO a b _
-        | AdjAllow a b | AdjLevel a b _ | ByConsP a _ b => node_info a ++ node_info b
+        | AdjAllow a b | AdjLevel a b _ | ByConsP a _ b | AdjLevelC0 a b _ => node_info a ++ node_info b
+        | AdjLevelC a b c _ => node_info a ++ node_info b ++ node_info c
         | Multi rs _ | Unused rs _ _ => flat_map node_info rs
         end.
 
